@@ -248,7 +248,30 @@ def rule_6(ctx):
         ctx.expect(S.same(got, _as_value(w)), anchor, f'lookup workbook: {LOOKUP_CELLS[a]}',
                    f'{a} = {LOOKUP_CELLS[a]} evaluates to {got!r}, expected {w!r} (A = 10, 20, 20, 30; B = 30, 20, 20, 10; C = 1..5; D = apple, Pear, '
                    'apple, APPLE, pear; E = ant, bee, cat): the result of the linear scan the function stands for')
-    ctx.floor(30, 'lookup / criteria cells')
+    # long columns: the scan sees every cell however many there are
+    rows = 130
+    col_n = [i % 5 for i in range(1, rows + 1)]
+    col_o = [i % 3 for i in range(1, rows + 1)]
+    long_cells = {f'N{i}': col_n[i - 1] for i in range(1, rows + 1)}
+    long_cells.update({f'O{i}': col_o[i - 1] for i in range(1, rows + 1)})
+    formulas = {
+        'P1': (f'=COUNTIFS(N1:N{rows},">=2",O1:O{rows},"<2",N1:N{rows},"<4")', sum(1 for n_, o_ in zip(col_n, col_o) if 2 <= n_ < 4 and o_ < 2)),
+        'P2': (f'=COUNTIFS(N1:N{rows},">=2",O1:O{rows},"<2")', sum(1 for n_, o_ in zip(col_n, col_o) if n_ >= 2 and o_ < 2)),
+        'P3': (f'=COUNTIF(N1:N{rows},4)', col_n.count(4)),
+        'P4': (f'=COUNTIFS(O1:O{rows},0,N1:N{rows},"<>0",O1:O{rows},"<1",N1:N{rows},">1")', sum(1 for n_, o_ in zip(col_n, col_o) if o_ == 0 and n_ > 1)),
+        'P5': (f'=MATCH(4,N1:N{rows},0)', col_n.index(4) + 1),
+    }
+    long_cells.update({a: f for a, (f, w) in formulas.items()})
+    wb = W.Workbook(ctx, long_cells, max_items=4000)
+    for a, (f, w) in formulas.items():
+        anchor = _reg(ctx, f[1:].split('(')[0]).node
+        got = wb.value('Sheet1!' + a)
+        if isinstance(got, tuple) and got and got[0] == 'error-class':
+            got = ('error', W.error_code(ctx, got[1]))
+        ctx.expect(S.same(got, _as_value(w)), anchor, f'lookup workbook, {rows} rows: {f}',
+                   f'{a} = {f} evaluates to {got!r}, expected {w!r} (N = row mod 5, O = row mod 3 for rows 1..{rows}): the result of the linear scan over every '
+                   'cell of the ranges, however long they are')
+    ctx.floor(35, 'lookup / criteria cells')
 
 
 RULES = [
